@@ -245,6 +245,14 @@ func registerRT(t map[string]intrinsic) {
 		return nil, nil
 	}
 	rt["vNote"] = noop
+	// vUF1/vUF2: an uninterpreted function of the arguments (same name + same
+	// arguments => same result, nothing else is known about it)
+	rt["vUF1"] = func(ex *Exec, caller *frame, fn *ssa.Function, args []Value) (Value, *goPanic) {
+		return ex.C.UF("huf_"+ex.mustConcreteStr(args[0], "vUF1"), 64, args[1].(*Term)), nil
+	}
+	rt["vUF2"] = func(ex *Exec, caller *frame, fn *ssa.Function, args []Value) (Value, *goPanic) {
+		return ex.C.UF("huf_"+ex.mustConcreteStr(args[0], "vUF2"), 64, args[1].(*Term), args[2].(*Term)), nil
+	}
 }
 
 func lookupRT(ex *Exec, fn *ssa.Function) (intrinsic, bool) {
